@@ -179,6 +179,18 @@ def shard_misc(_, tier):
                 for ch in (0, 1):
                     cases.append((["ct_swapset32 swap %d %s %s" % (ch, H(a), H(c))], ["%s.%s" % ((obs_of(c), obs_of(a)) if ch else (obs_of(a), obs_of(c)))], None))
                     cases.append((["ct_swapset32 set %d %s %s" % (ch, H(a), H(c))], ["%s.%s" % ((obs_of(c), obs_of(c)) if ch else (obs_of(a), obs_of(c)))], None))
+    # the same truth value derived in every public way (negation, comparisons, combinations): the views and the masked helpers must
+    # not depend on how the choice was produced
+    for ch in (0, 1):
+        for mode in range(17):
+            cases.append((["ct_choice_views %d:%d" % (ch, mode)], [b(ch) + b(not ch) + b(ch) + b(ch)], None))
+            for n in (1, 5, 10):
+                a, c = pat(5, 0, 8 * n), pat(6, 3, 8 * n)
+                cases.append((["ct_swapset64 swap %d:%d %s %s" % (ch, mode, H(a), H(c))], ["%s.%s" % ((obs_of(c), obs_of(a)) if ch else (obs_of(a), obs_of(c)))], None))
+                cases.append((["ct_swapset64 set %d:%d %s %s" % (ch, mode, H(a), H(c))], ["%s.%s" % ((obs_of(c), obs_of(c)) if ch else (obs_of(a), obs_of(c)))], None))
+                a, c = pat(5, 0, 4 * n), bytes([0, 0, 0, 0x80] * n)
+                cases.append((["ct_swapset32 swap %d:%d %s %s" % (ch, mode, H(a), H(c))], ["%s.%s" % ((obs_of(c), obs_of(a)) if ch else (obs_of(a), obs_of(c)))], None))
+                cases.append((["ct_swapset32 set %d:%d %s %s" % (ch, mode, H(a), H(c))], ["%s.%s" % ((obs_of(c), obs_of(c)) if ch else (obs_of(a), obs_of(c)))], None))
     base = pat(5, 0, 16)
     cases.append((["tag_eq %s %s" % (H(base), H(base))], ["TTTF"], None))
     for bit in range(128):
